@@ -79,6 +79,12 @@ pub mod recursion {
         }
     }
 
+    /// The current `Context::depth()` of a state (what the recursion limit is
+    /// compared with), for functions and filters that want to observe it.
+    pub fn depth_of(state: &crate::State<'_, '_>) -> usize {
+        state.ctx.depth()
+    }
+
     /// Resets the marks of the current thread.
     pub fn reset() {
         NATIVE.with(|x| x.set(0));
